@@ -359,7 +359,18 @@ class Scen:
                     content = os.readlink(e.path)
                     kind = "l"
                     rp = os.path.realpath(e.path)
-                    res = "d" if os.path.isdir(e.path) else ("f" if os.path.exists(e.path) else "m")
+                    # what following the link leads to: a directory, something that is not a directory (a file, or a
+                    # path that runs *through* a file: both make lstat below the link raise ENOTDIR), or nothing
+                    if os.path.isdir(e.path):
+                        res = "d"
+                    else:
+                        try:
+                            os.stat(e.path)
+                            res = "f"
+                        except NotADirectoryError:
+                            res = "f"
+                        except OSError:
+                            res = "m"
                     if rp.startswith(real_root + b"/"):
                         res += "p" + hx(os.path.relpath(rp, real_root))
                 elif pystat.S_ISREG(st.st_mode):
